@@ -349,6 +349,8 @@ class Run:
         self.fd_calls = []
         self.faults = {}          # (kind, index) -> exception instance
         self.updates = []         # per update_lbfgs_matrices call: was the new pair stored?
+        self.fu = prob.f          # the objective / gradient oracles currently in force (C13 switches them)
+        self.gu = prob.g
 
     def _fault(self, kind, idx):
         e = self.faults.get((kind, idx))
@@ -358,14 +360,14 @@ class Run:
     def fun(self, x, *args):
         self._fault("fun", len(self.fcalls))
         pt = list(x.data)
-        v = self.prob.f(pt)[0]
+        v = self.fu(pt)[0]
         self.fcalls.append((pt, v))
         return v
 
     def jac(self, x, *args):
         self._fault("jac", len(self.gcalls))
         pt = list(x.data)
-        v = self.prob.g(pt)
+        v = self.gu(pt)
         self.gcalls.append((pt, v))
         return self.prob.W.np.array(list(v))
 
